@@ -110,6 +110,7 @@ PreDeliver(n, m) ==
          s2   == HandleMsg(n, rs[n], m, peer) IN
      /\ s2 # rs[n] /\ s2.round <= PreMax
      /\ (LazyByz /\ m \in ByzVotes) => s2 # AddVote(rs[n], m.t, m.r, m.src, m.v, peer).s
+     /\ (m \in ByzClaims) => ClaimUseful(rs[n], m)
      /\ NodeStep(n, s2, FALSE, [name |-> "Deliver", n |-> n, m |-> m, k |-> "-"])
      /\ inq' = [inq EXCEPT ![n] = inq[n] \o OutToMsgs(n, s2.out)]
      /\ soup' = soup
@@ -153,6 +154,7 @@ ByzDeliver(n, m) ==
   /\ LET s2 == HandleMsg(n, rs[n], m, m.src) IN
      /\ s2 # rs[n]
      /\ (LazyByz /\ m \in ByzVotes) => s2 # AddVote(rs[n], m.t, m.r, m.src, m.v, m.src).s
+     /\ (m \in ByzClaims) => ClaimUseful(rs[n], m)
      /\ NodeStep(n, s2, FALSE, [name |-> "Deliver", n |-> n, m |-> m, k |-> "-"])
      /\ inq' = [inq EXCEPT ![n] = inq[n] \o OutToMsgs(n, s2.out)]
      /\ soup' = soup
